@@ -104,12 +104,29 @@ pub fn run(tier: &str) -> Report {
             }
         }
     }
+    // push rules on a long body: 12,000 words of 5 bytes are 60 KB, still an event
+    let words: &[usize] = if tier == "thorough" { &[10, 1000, 5000, 12_000, 100_000] } else { &[10, 1000, 12_000] };
+    let (mut pn, mut pf) = (0u64, vec![]);
+    for &w in words {
+        for what in ["default_ruleset", "event_match"] {
+            pn += 1;
+            // the second replay binary: its dependencies are built without optimisation, as cargo's dev and test profiles do
+            // (from opt-level 1 on rustc turns a self tail call into a loop and the recursion cannot be seen)
+            let exe0 = exe.parent().and_then(|p| p.parent()).and_then(|p| p.parent()).map(|p| p.join("replay0-target").join("debug").join("replay0")).unwrap_or_default();
+            let st = std::process::Command::new(&exe0).arg(w.to_string()).arg(what).stderr(std::process::Stdio::null()).status();
+            let ok = matches!(&st, Ok(s) if s.success());
+            if !ok {
+                pf.push(json!({"words_in_body": w, "body_bytes": w * 5, "evaluated": what, "observed": format!("child process ended with {:?} (stack overflow aborts the process)", st.map(|s| s.to_string()))}));
+            }
+        }
+    }
     Report {
-        bound: format!("HTML: nesting depths {depths:?} x 2 elements x 4 operations; event JSON: nesting depths {jdepths:?} x 4 routes (bundled replacements of incomplete / complete events, of redaction events, arrays in the content) into AnySyncTimelineEvent, AnyTimelineEvent and Raw; each case in a child process on a 2 MiB stack"),
-        cases: n + jn,
+        bound: format!("push rules: bodies of {words:?} words x {{server-default ruleset with the display name \"bob\", event_match on content.body}}, in a binary whose dependencies are built at opt-level 0; HTML: nesting depths {depths:?} x 2 elements x 4 operations; event JSON: nesting depths {jdepths:?} x 4 routes (bundled replacements of incomplete / complete events, of redaction events, arrays in the content) into AnySyncTimelineEvent, AnyTimelineEvent and Raw; each case in a child process on a 2 MiB stack"),
+        cases: n + jn + pn,
         obligations: vec![
             ("html_operations_on_deeply_nested_documents_do_not_exhaust_the_stack", n, f),
             ("events_nested_through_bundled_relations_do_not_exhaust_the_stack", jn, jf),
+            ("push_rule_evaluation_on_long_bodies_does_not_exhaust_the_stack", pn, pf),
         ],
     }
 }
